@@ -1000,7 +1000,10 @@ TraceRpc ==
            V == ChecksD("C08", "Inv_C08_NoPanic", d, ~o.panicked)
                 \cup ChecksD("C08", "Inv_C08_HistoryKept", d, o.panicked \/ o.history_kept)
                 \cup ChecksD("C08", "Inv_C08_StillServes", d,
-                              o.panicked \/ o.blocked \/ (o.still_pulls /\ o.still_accepts_push /\ o.sigpool_ok))
+                              \* (a valid join request parks its handler until consensus answers;
+                              \* any other handler that does not return has wedged the node)
+                              o.panicked \/ (o.blocked /\ x.class = "JoinRequest")
+                                \/ (~o.blocked /\ o.still_pulls /\ o.still_accepts_push /\ o.sigpool_ok))
        IN  viol' = AddCapped(viol, V)
     /\ stats' = [ stats EXCEPT !.lines = @ + 1, !.inserts = @ + 1 ]
     /\ UNCHANGED << pst, D, nodes, dlv, sto, psto, rrv, meta, cev, ctx, base, last, pools, lostSet, evals, fames, ref, sub, drift >>
